@@ -232,32 +232,37 @@ def judge (_id : String) (lines : Array String) : Verdict := Id.run do
         | _ => none
       let isDev := devStartFail env fail c op resp
       let multi := (ntxObs.getD 0) > 1
+      -- expectation for the request as answered (no crash)
+      let p0 : Pending :=
+        match op, resp with
+        | .tdelete id, _ =>
+          -- deleting a template that tasks were created from orphans them (recorded deviation, latent state)
+          if ids.any (fun i => match c.tasks i with | some t => t.tmpl == id | none => false) then
+            { cands := [], what := l, devModel := some "template-delete-orphans-tasks" }
+          else { cands := [specStep env fail c op resp], what := l }
+        | .tupdate id _ _, .fail =>
+          { cands := [c], tup := tup, what := l,
+            freeExec := ids.filter (fun i => match c.tasks i with | some t => t.tmpl == id | none => false),
+            devModel := some "template-update-rollback-incomplete" }
+        | _, _ =>
+          { cands := [specStep env fail c op resp], tup := tup, what := l,
+            dev := if isDev then some ("start-failure-after-commit", devStartFailOut env fail c op) else none }
       let p : Pending :=
         match cut with
-        | none =>
-          match op, resp with
-          | .tdelete id, _ =>
-            -- deleting a template that tasks were created from orphans them (recorded deviation, latent state)
-            if ids.any (fun i => match c.tasks i with | some t => t.tmpl == id | none => false) then
-              { cands := [], what := l, devModel := some "template-delete-orphans-tasks" }
-            else { cands := [specStep env fail c op resp], what := l }
-          | .tupdate id _ _, .fail =>
-            { cands := [c], tup := tup, what := l,
-              freeExec := ids.filter (fun i => match c.tasks i with | some t => t.tmpl == id | none => false),
-              devModel := some "template-update-rollback-incomplete" }
-          | _, _ =>
-            { cands := [specStep env fail c op resp], tup := tup, what := l,
-              dev := if isDev then some ("start-failure-after-commit", devStartFailOut env fail c op) else none }
+        | none => p0
         | some k =>
-          -- crash: the client got no answer; the request took effect or it did not, then the process restarted
-          let eff := if resp = .ok || isDev then [rs (accept env fail c op)] else []
-          -- the crash point is INSIDE the request when the file is neither the one before nor the one after it
+          -- crash: the process restarts on the file as it was after k transactions of the request. The file is
+          -- the one before the request, the one after it, or — INSIDE the request — neither.
           let w1 := (handle Variant.fixed env fail (beginReq wBefore cut) op).1
           let file := w1.snap.getD w1.store
-          let inside := multi && 0 < k && k < ntxObs.getD 0 &&
-            !storeEq ids mids file wBefore.store && !storeEq ids mids file w1.store
-          if inside then { cands := [], what := l, devModel := some "crash-between-transactions" }
-          else { cands := eff ++ [rs c], what := l }
+          if storeEq ids mids file wBefore.store then { cands := [rs c], what := l }
+          else if storeEq ids mids file w1.store || !(multi && 0 < k && k < ntxObs.getD 0) then
+            { p0 with cands := p0.cands.map rs, dev := p0.dev.map (fun d => (d.1, rs d.2)), tup := none,
+                      freeExec := [],
+                      devModel := match p0.devModel with
+                        | some key => some key
+                        | none => none }
+          else { cands := [], what := l, devModel := some "crash-between-transactions" }
       st := { st with pend := some p }
       if op == .restart then st := { st with restarts := st.restarts + 1 }
       else if resp = .ok then st := { st with accepted := st.accepted + 1 }
